@@ -318,7 +318,7 @@ def dict_store_keys(func: ast.FunctionDef, target_text: str) -> set:
                 out.add(n.args[0].value)
     return out
 
-def inline_private_helpers(f: "FuncInfo", depth: int = 3, methods: bool = False) -> ast.FunctionDef:
+def inline_private_helpers(f: "FuncInfo", depth: int = 3, methods: bool = False, keep=frozenset(), only=None) -> ast.FunctionDef:
     """A copy of ``f``'s definition in which calls to private module-level helper functions of the same
     module (``_name(...)`` used as a statement or as the whole right-hand side of an assignment) are
     replaced by the helper's body: parameters are bound to the argument expressions, the helper's own
@@ -331,8 +331,20 @@ def inline_private_helpers(f: "FuncInfo", depth: int = 3, methods: bool = False)
     counter = [0]
     funcs = f.module.functions
 
+    def ends(stmts):
+        """The statement list always leaves (return / raise) at its end."""
+        if not stmts:
+            return False
+        last = stmts[-1]
+        if isinstance(last, (ast.Return, ast.Raise)):
+            return True
+        if isinstance(last, ast.If):
+            return ends(last.body) and ends(last.orelse)
+        return False
+
     def returns_only_in_ifs(stmts):
-        """Every `return` sits at the top level of the body or of (nested) if-arms."""
+        """Every `return` sits at the top level of the body, of (nested) if-arms, or of exception
+        handlers all of which leave the function (the code after the `try` is then its else-part)."""
         for st in stmts:
             if isinstance(st, ast.Return):
                 continue
@@ -340,12 +352,22 @@ def inline_private_helpers(f: "FuncInfo", depth: int = 3, methods: bool = False)
                 if not returns_only_in_ifs(st.body) or not returns_only_in_ifs(st.orelse):
                     return False
                 continue
+            if isinstance(st, ast.Try) and any(isinstance(n, ast.Return) for n in ast.walk(st)):
+                if any(isinstance(n, ast.Return) for x in list(st.body) + list(st.finalbody) for n in ast.walk(x)):
+                    return False
+                if not all(ends(h.body) and returns_only_in_ifs(h.body) for h in st.handlers):
+                    return False
+                if not returns_only_in_ifs(st.orelse):
+                    return False
+                continue
             if any(isinstance(n, ast.Return) for n in ast.walk(st)):
                 return False
         return True
 
     def eligible(g):
-        if g is None or not g.name.startswith("_") or g.name.startswith("__") or g is f or g.is_property or g.is_abstract or g.cache_deps is not None:
+        if g is None or not g.name.startswith("_") or g.name.startswith("__") or g is f or g.is_property or g.is_abstract or g.cache_deps is not None or g.name in keep:
+            return False
+        if only is not None and g.name not in only:
             return False
         body = g.body_without_docstring()
         if not body:
@@ -368,6 +390,19 @@ def inline_private_helpers(f: "FuncInfo", depth: int = 3, methods: bool = False)
                 if targets is not None:
                     out.append(ast.Assign(targets=_copy.deepcopy(targets), value=st.value if st.value is not None else ast.Constant(value=None)))
                 return out, True
+            if isinstance(st, ast.Raise):
+                out.append(st)
+                return out, True
+            if isinstance(st, ast.Try) and any(isinstance(n, ast.Return) for n in ast.walk(st)):
+                # handlers all leave: what follows the try is its else-part
+                rest = stmts[i + 1 :]
+                handlers = []
+                for h in st.handlers:
+                    hb, _t = single_exit(list(h.body), targets)
+                    handlers.append(ast.ExceptHandler(type=h.type, name=h.name, body=hb or [ast.Pass()]))
+                ob, t_else = single_exit(list(st.orelse) + list(rest), targets)
+                out.append(ast.Try(body=st.body, handlers=handlers, orelse=ob, finalbody=st.finalbody))
+                return out, t_else
             if isinstance(st, ast.If) and any(isinstance(n, ast.Return) for n in ast.walk(st)):
                 rest = stmts[i + 1 :]
                 b, tb = single_exit(list(st.body), targets)
@@ -473,9 +508,15 @@ def inline_private_helpers(f: "FuncInfo", depth: int = 3, methods: bool = False)
         elif targets is not None:
             body.append(ast.Assign(targets=_copy.deepcopy(targets), value=ast.Constant(value=None)))
         out.extend(body)
+        # every node of the inlined code is located at the call site: orderings by line number then
+        # agree with the execution order in the caller (the helper's own lines lie elsewhere in the file)
         for st in out:
-            ast.copy_location(st, call)
-            ast.fix_missing_locations(st)
+            for n in ast.walk(st):
+                if isinstance(n, (ast.stmt, ast.expr, ast.excepthandler)):
+                    n.lineno = getattr(call, "lineno", 0)
+                    n.end_lineno = getattr(call, "end_lineno", n.lineno)
+                    n.col_offset = getattr(call, "col_offset", 0)
+                    n.end_col_offset = getattr(call, "end_col_offset", 0)
         return process(out, level + 1)
 
     def helper_call(e):
@@ -550,7 +591,14 @@ def inline_private_helpers(f: "FuncInfo", depth: int = 3, methods: bool = False)
                             return _copy.deepcopy(binds[n.id])
                         return n
 
-                return ast.copy_location(Sub().visit(_copy.deepcopy(expr)), c)
+                new_e = Sub().visit(_copy.deepcopy(expr))
+                for n in ast.walk(new_e):
+                    if isinstance(n, ast.expr):
+                        n.lineno = getattr(c, "lineno", 0)
+                        n.end_lineno = getattr(c, "end_lineno", n.lineno)
+                        n.col_offset = getattr(c, "col_offset", 0)
+                        n.end_col_offset = getattr(c, "end_col_offset", 0)
+                return new_e
 
         return T().visit(tree)
 
@@ -778,8 +826,46 @@ class Program:
                 raise AnalysisError(msg)
             self._load()
         self._link()
+        if sources is None:
+            self._inline_new_helpers()
 
     # ------------------------------------------------------------------
+    def _inline_new_helpers(self) -> None:
+        """Private helper functions / methods that do not exist in the pinned tree (listed in
+        pinned_helpers.json) were introduced by a later change - typically code extracted from an
+        existing function.  Their calls are replaced by their bodies (semantics preserving; see
+        inline_private_helpers) so that every rule analyses the statements where they take effect,
+        whichever way the code is cut into functions.  Helpers of the pinned tree stay calls: rules
+        anchor on some of them by name."""
+        import json as _json
+
+        try:
+            pinned = _json.loads((Path(__file__).with_name("pinned_helpers.json")).read_text())
+        except OSError:
+            return
+        self.inlined_helpers: list[str] = []
+        for m in self.modules.values():
+            known = set(pinned.get(m.name, []))
+            fresh = set()
+            for f in m.functions.values():
+                if f.name.startswith("_") and not f.name.startswith("__") and f.name not in known:
+                    fresh.add(f.name)
+            for c in m.classes.values():
+                for f in list(c.methods.values()) + list(c.setters.values()):
+                    if f.name.startswith("_") and not f.name.startswith("__") and f.name not in known:
+                        fresh.add(f.name)
+            if not fresh:
+                continue
+            self.inlined_helpers += sorted(f"{m.name}.{n}" for n in fresh)
+            targets = list(m.functions.values())
+            for c in m.classes.values():
+                targets += list(c.methods.values()) + list(c.setters.values())
+            for f in targets:
+                try:
+                    f.node = inline_private_helpers(f, methods=True, only=frozenset(fresh))
+                except RecursionError:  # pragma: no cover
+                    pass
+
     def _load(self) -> None:
         for path in sorted(self.src.rglob("*.py")):
             rel = path.relative_to(self.src).with_suffix("")
@@ -960,6 +1046,14 @@ class Program:
             msg = f"anchor function {module}.{name} not found"
             raise AnalysisError(msg)
         return m.functions[name]
+
+    def func_inlined(self, module: str, name: str, keep=frozenset()) -> FuncInfo:
+        """The function with private same-module helpers inlined, except the named anchors in ``keep``
+        (helpers the rules look for as calls)."""
+        import dataclasses
+
+        f = self.func(module, name)
+        return dataclasses.replace(f, node=inline_private_helpers(f, keep=frozenset(keep)))
 
     def method(self, cls: str, name: str) -> FuncInfo:
         c = self.cls(cls)
